@@ -19,6 +19,8 @@ import (
 	"errors"
 	"runtime"
 	"sync"
+
+	"github.com/bufbuild/buf/private/pkg/verifhook"
 )
 
 var (
@@ -79,7 +81,9 @@ func Parallelize(ctx context.Context, jobs []func(context.Context) error, option
 	}
 	var wg sync.WaitGroup
 	var stop bool
+	jobIndex := -1
 	for _, job := range jobs {
+		jobIndex++
 		if stop {
 			break
 		}
@@ -100,14 +104,18 @@ func Parallelize(ctx context.Context, jobs []func(context.Context) error, option
 				addError(ctx.Err())
 			default:
 				job := job
+				jobIndex := jobIndex
 				wg.Add(1)
 				go func() {
+					ctx := verifhook.JobContext(ctx, jobIndex)
+					verifhook.Point(ctx, "thread.job.start")
 					if err := job(ctx); err != nil {
 						addError(err)
 						if cancel != nil {
 							cancel()
 						}
 					}
+					verifhook.Point(ctx, "thread.job.end")
 					// This will never block.
 					<-semaphoreC
 					wg.Done()
